@@ -247,56 +247,112 @@ def check_fetcher(run: Run, prog: Program) -> None:
 
 
 # ---------------------------------------------------------------------------------------------
+def _math_fn(fl: Any, func: ast.AST) -> str | None:
+    """'isnan' / 'isinf' / 'isfinite' when `func` denotes that function of the math module."""
+    t = u(func)
+    for name in ("isnan", "isinf", "isfinite"):
+        if t == f"math.{name}" or (isinstance(func, ast.Name) and fl.fn.module.imports.get(func.id) == f"math.{name}"):
+            return name
+    return None
+
+
 def check_output(run: Run, prog: Program) -> bool:
-    """C13.OUT on FormulaEvaluator.apply and the builders; returns whether _run drops rounds."""
+    """C13.OUT on FormulaEvaluator.apply and the builders; returns whether _run drops rounds.
+
+    Decided per scenario (result NaN / +-inf / finite) on the CFG: the branches a scenario cannot take
+    are cut (three-valued evaluation of the conditions, so any equivalent spelling of the guard is the
+    same guard), and every Sample the function can still return -- directly, through a local, a
+    conditional expression or a private helper -- must then be the None sample resp. the
+    `create_method(result)` sample.
+    """
+    from ._c06_util import Flow, Site, lifted, names_eq, pruned, result_sites, select_ifexp, unawait
+
     fn = prog.func(f"{EVAL}:FormulaEvaluator.apply")
     run.analysed(fn.qual)
-    cfg = CFG(fn.node, fn.file)
-    rets = [n for n in cfg.nodes if isinstance(n.ast, ast.Return) and n.ast.value is not None]
-    none_rets = []
-    val_rets = []
-    for r in rets:
-        v = r.ast.value  # type: ignore[union-attr]
-        if isinstance(v, ast.Call) and u(v.func) == "Sample" and len(v.args) == 2:
-            if isinstance(v.args[1], ast.Constant) and v.args[1].value is None:
-                none_rets.append(r)
+    fl = Flow(prog, fn)
+    sites: list[Site] = result_sites(fl, lambda c: u(c.func).split("[")[0] == "Sample")
+    ok = bool(sites)
+    detail = "no Sample is returned"
+
+    def value_leaves(flow: Any, nid: int, expr: ast.AST, atom: Any, fuel: int = 6) -> list[tuple[Any, int, ast.AST]]:
+        """The expressions the sample's value can be under a scenario (atom=None: under any)."""
+        out: list[tuple[Any, int, ast.AST]] = []
+        for alt in select_ifexp(expr, (lambda e: atom(flow)(e, nid)) if atom is not None else (lambda e: None)):
+            if isinstance(alt, ast.Name) and fuel > 0:
+                for o in flow.origin(alt, nid, through_helpers=False):
+                    if o.kind != "expr" or o.node is None or o.nid is None:
+                        out.append((flow, nid, alt))
+                    elif atom is not None and o.flow.cfg.path(o.flow.cfg.entry, [o.nid], edge_ok=pruned(o.flow.cfg, atom(o.flow))) is None:
+                        continue  # this definition is not executed in the scenario
+                    else:
+                        out.extend(value_leaves(o.flow, o.nid, o.node, atom, fuel - 1))
             else:
-                val_rets.append(r)
-    ok = len(none_rets) == 1 and len(val_rets) == 1
-    detail = "expected one `return Sample(ts, None)` and one `return Sample(ts, create(res))`"
+                out.append((flow, nid, alt))
+        return out
+
+    def classify(flow: Any, nid: int, e: ast.AST) -> tuple[str, ast.AST | None]:
+        if isinstance(e, ast.Constant) and e.value is None:
+            return "none", None
+        if isinstance(e, ast.Call) and u(e.func) == "self._create_method" and len(e.args) + len(e.keywords) == 1:
+            arg = e.args[0] if e.args else e.keywords[0].value
+            o = flow.origin1(arg, nid)
+            if o is not None and o.kind == "expr":
+                return "value", unawait(o.node)
+        return "other", None
+
+    res_nodes: list[ast.AST] = []
+    kinds: set[str] = set()
     if ok:
-        nr, vr = none_rets[0], val_rets[0]
-        res_name = None
-        call = vr.ast.value.args[1]  # type: ignore[union-attr]
-        if isinstance(call, ast.Call) and u(call.func) == "self._create_method" and len(call.args) == 1:
-            res_name = u(call.args[0])
-        ok = res_name is not None
-        detail = "the value sample is not built by self._create_method(<result>)"
-        if ok:
-            tests = [t for t in cfg.nodes if t.kind == "test" and any(
-                m == nr.id for m, lab in cfg.succ[t.id] if lab == "true")]
-            want = ("or", frozenset({("truthy", f"isnan({res_name})"),
-                                     ("truthy", f"isinf({res_name})")}))
-            want2 = ("or", frozenset({("truthy", f"math.isnan({res_name})"),
-                                      ("truthy", f"math.isinf({res_name})")}))
-            want3 = ("not", ("truthy", f"math.isfinite({res_name})"))
-            ok = len(tests) == 1 and canon(tests[0].ast) in (want, want2, want3) and any(  # type: ignore[arg-type]
-                m == vr.id for m, lab in cfg.succ[tests[0].id] if lab == "false")
-            detail = (f"`return Sample(ts, None)` is not taken exactly when isnan({res_name}) or "
-                      f"isinf({res_name})")
-            if ok:
-                # res is the single residual value of the stack
-                defs = [n.ast for n in cfg.nodes if isinstance(n.ast, ast.Assign)
-                        and u(n.ast.targets[0]) == res_name]
-                ok = len(defs) == 1 and isinstance(defs[0].value, ast.Call) and method_call(
-                    defs[0].value, None, "pop")
-                detail = "the emitted value is not the value popped from the evaluation stack"
-                # both samples carry the same timestamp expression
-                if ok:
-                    ts1 = u(nr.ast.value.args[0])  # type: ignore[union-attr]
-                    ts2 = u(vr.ast.value.args[0])  # type: ignore[union-attr]
-                    ok = ts1 == ts2
-                    detail = "None-sample and value-sample carry different timestamps"
+        for s in sites:
+            v = s.args(["timestamp", "value"]).get("value")
+            if v is None:
+                kinds.add("other")
+                continue
+            for f2, n2, leaf in value_leaves(s.flow, s.nid, v, None):
+                k, r = classify(f2, n2, leaf)
+                kinds.add(k)
+                if r is not None and not any(r is x for x in res_nodes):
+                    res_nodes.append(r)
+        ok = kinds == {"none", "value"}
+        detail = ("the value sample is not built by self._create_method(<result>)" if "other" in kinds
+                  else "expected a `Sample(ts, None)` and a `Sample(ts, create(res))` outcome")
+    if ok:
+        ok = len(res_nodes) == 1 and isinstance(res_nodes[0], ast.Call) and method_call(res_nodes[0], None, "pop") \
+            and not res_nodes[0].args
+        detail = "the emitted value is not the value popped from the evaluation stack"
+    if ok:
+        res = res_nodes[0]
+
+        def atom_for(scn: str) -> Any:
+            def for_flow(flow: Any) -> Any:
+                def atom0(e: ast.AST, nid: int) -> bool | None:
+                    if isinstance(e, ast.Call) and len(e.args) == 1 and not e.keywords:
+                        name = _math_fn(flow, e.func)
+                        if name is not None and flow.is_node(e.args[0], res, nid):
+                            return {"isnan": scn == "nan", "isinf": scn == "inf", "isfinite": scn == "fin"}[name]
+                    return None
+                return lifted(flow, atom0)
+            return for_flow
+
+        for scn, want in (("nan", "none"), ("inf", "none"), ("fin", "value")):
+            af = atom_for(scn)
+            got: set[str] = set()
+            for s in sites:
+                if any(fl2.cfg.path(fl2.cfg.entry, [n2], edge_ok=pruned(fl2.cfg, af(fl2))) is None for fl2, n2 in s.chain):
+                    continue  # this return cannot be reached in the scenario
+                v = s.args(["timestamp", "value"])["value"]
+                got |= {classify(f2, n2, leaf)[0] for f2, n2, leaf in value_leaves(s.flow, s.nid, v, af)}
+            if got != {want}:
+                ok = False
+                detail = ("`return Sample(ts, None)` is not taken exactly when isnan(res) or isinf(res) "
+                          f"(result {scn}: {sorted(got) or 'nothing'} returned)")
+                break
+    if ok:
+        # all outcomes carry the same timestamp
+        t0 = sites[0].flow.origin(sites[0].args(["timestamp", "value"]).get("timestamp") or ast.Constant(None), sites[0].nid)
+        ok = all("timestamp" in s.args(["timestamp", "value"]) and names_eq(
+            s.flow.origin(s.args(["timestamp", "value"])["timestamp"], s.nid), t0) for s in sites)
+        detail = "None-sample and value-sample carry different timestamps"
     run.check(ok, "C13.OUT", fn.qual, "NaN/inf result -> Sample(ts, None)", detail,
               node=fn.node, file=fn.file)
 
